@@ -170,7 +170,38 @@ def _lib_events():
         "const_graph_leaky": lambda: ("PAIR", Lb["const_graph"](Lb["leaky"])(Lb["x_leaky"]), Lb["leaky_np"](Lb["x_leaky"])),
         "revconst_reverse": lambda: ("PAIR", ag.grad(lambda x: x * Lb["rev_const"](x))(1.7), 1.7),
         "revconst_forward": lambda: ("PAIR", ag.deriv(lambda x: x * Lb["rev_const"](x))(1.7), 3.4),
+        # a failure of the library itself (not an injected one) INSIDE an enclosing differentiation, caught there, followed by more nested work
+        "nested_type_error_rr": lambda: ("PAIR", ag.grad(_after_inner_failure(ag, ag.grad, "int"))(1.5), 12.0),
+        "nested_type_error_ff": lambda: ("PAIR", ag.deriv(_after_inner_failure(ag, ag.deriv, "int"))(1.5), 12.0),
+        "nested_type_error_rf": lambda: ("PAIR", ag.grad(_after_inner_failure(ag, ag.deriv, "str"))(1.5), 12.0),
+        "nested_vector_output_error": lambda: ("PAIR", ag.grad(_after_inner_failure(ag, ag.grad, "vector"))(1.5), 12.0),
+        "nested_missing_rule_error": lambda: ("PAIR", ag.grad(_after_inner_failure(ag, ag.grad, "norule", Lb))(1.5), 12.0),
     }
+
+
+def _after_inner_failure(ag, D, how, Lb=None):
+    def outer(x):
+        try:
+            if how == "int":
+                D(lambda y: y * 1.0)(2)                      # TypeError: can't differentiate w.r.t. int
+            elif how == "str":
+                D(lambda y: 1.0)("s")
+            elif how == "vector":
+                ag.grad(lambda y: y * Lb_onp().ones(2))(2.0)  # TypeError: grad of a vector-valued function
+            else:
+                D(lambda y: Lb["onp"].cbrt(y) if False else __import__("autograd.numpy", fromlist=["x"]).cbrt(y))(2.0)   # NotImplementedError
+        except (TypeError, NotImplementedError):
+            pass
+        return x * D(lambda y: x * y * y)(2.0)               # = 4 x**2  ->  8 x
+    return outer
+
+
+def _Lb_onp():
+    import numpy
+    return numpy
+
+
+Lb_onp = _Lb_onp
 
 
 def _flatten_seq(Lb):
@@ -196,7 +227,8 @@ def _det_singular_twice(Lb):
 
 LIB_EVENTS = ["eigh_degenerate", "eigh_degenerate3", "inv_singular", "cholesky_not_pd", "f32_shapes", "f16_c64_shapes", "errstate_raise",
               "sqrt_at_zero", "bad_shape_forward", "int_argument", "fwd_inv_singular", "flatten_unflattenable_leaf", "flatten_func_bad_then_good",
-              "det_singular_twice", "const_graph_leaky", "revconst_reverse", "revconst_forward"]
+              "det_singular_twice", "const_graph_leaky", "revconst_reverse", "revconst_forward", "nested_type_error_rr", "nested_type_error_ff", "nested_type_error_rf",
+              "nested_vector_output_error", "nested_missing_rule_error"]
 
 
 def run_event(ev):
